@@ -107,6 +107,8 @@ class Gen:
             choices += ["sstore", "sstore", "tstore", "sload_mstore"]
         if "branch" in self.f and depth > 0:
             choices += ["if", "if", "guard"]
+        if "stackops" in self.f:
+            choices = ["stackops"] * 5 + ["sha3range", "mstore"]
         if "corr" in self.f and depth > 0:
             choices = ["corr", "corr", "corr", "corr", "mstore", "sstore"]
         if "mem" in self.f:
@@ -128,6 +130,12 @@ class Gen:
         k = r.choice(choices)
         if k == "corr":
             return self.correlated()
+        if k == "stackops":
+            return self.stackops()
+        if k == "sha3range":
+            # keccak over a memory range that is partly written, partly fresh, not word aligned
+            return self.expr(1) + [("push", r.choice([0, 1, 31, 32])), "MSTORE", ("push", r.choice([0, 1, 31, 32, 33, 64, 65])), ("push", r.choice([0, 1, 2, 31, 32])), "SHA3",
+                                   ("push", r.choice([64, 96])), "MSTORE"]
         if k == "symcall":
             return self.symcall()
         if k == "extcode":
@@ -238,7 +246,38 @@ class Gen:
         # store the success flag so that it is observable
         items += [("push", 128), "MSTORE"]
         if r.random() < 0.4:
-            items += [("push", r.choice([0, 32])), "PUSH0", ("push", 160), "RETURNDATACOPY"] if False else ["RETURNDATASIZE", ("push", 160), "MSTORE"]
+            if r.random() < 0.5:
+                # (size, source offset): inside, exactly at the end, zero-size at / past the end, past the end
+                size, off = r.choice([(32, 0), (1, 31), (0, 32), (0, 33), (32, 1), (33, 0), (0, 96), (64, 0)])
+                items += [("push", size), ("push", off), ("push", 160), "RETURNDATACOPY"]
+            else:
+                items += ["RETURNDATASIZE", ("push", 160), "MSTORE"]
+        return items
+
+    def stackops(self):
+        """push n words, shuffle them with DUPs and SWAPs of every depth up to 16, publish what ends up on top"""
+        r = self.r
+        n = r.choice([3, 8, 16, 17, 18, 18])
+        items = []
+
+        def pick(mx):   # the deepest positions are the interesting ones
+            return r.choice([1, 2, mx, mx, max(1, mx - 1), r.randrange(1, mx + 1)])
+        for i in range(n):
+            items += self.expr(0) if r.random() < 0.4 else [("push", 0x100 + i)]
+        depth = n
+        for _ in range(r.randrange(2, 9)):
+            if r.random() < 0.5 and depth < 40:
+                k = pick(min(16, depth))
+                items.append(f"DUP{k}")
+                depth += 1
+            elif depth >= 2:
+                k = pick(min(16, depth - 1))
+                items.append(f"SWAP{k}")
+        pub = r.randrange(1, min(4, depth) + 1)
+        for j in range(pub):
+            items += [("push", 32 * j), "MSTORE"]
+        depth -= pub
+        items += ["POP"] * depth
         return items
 
     def correlated(self):
